@@ -1,8 +1,13 @@
 package main
 
 import (
+	"encoding/json"
 	"fmt"
+	"net/url"
+	"sort"
 	"strings"
+
+	"github.com/ory/fosite"
 )
 
 // c09Grid: in the current state, query the introspection endpoint for every token ever seen
@@ -198,4 +203,83 @@ func c09AltSpelling(tok string) string {
 		return tok
 	}
 	return pfx + key[:4] + "\n" + key[4:] + "." + sig
+}
+
+// c09Stateless: JWT access tokens introspected by the stateless validator alone (no storage lookup). What the answer
+// reports about an active token must be the token's real data.
+func c09Stateless(res *WRes) {
+	w := NewWorld(Profile{JWTAccess: true, StatelessJWTIntrospectionOnly: true})
+	if a, ok := w.Mem.Clients["A"].(*fosite.DefaultClient); ok {
+		a.Audience = []string{"https://api.example/a", "https://api.example/b"}
+	}
+	for _, aud := range []string{"", "https://api.example/a", "https://api.example/a https://api.example/b"} {
+		for _, grant := range []string{"client_credentials", "password"} {
+			f := url.Values{"grant_type": {grant}, "scope": {"a"}}
+			if grant == "password" {
+				f.Set("username", "peter")
+				f.Set("password", "pw-peter")
+			}
+			if aud != "" {
+				f.Set("audience", aud)
+			}
+			to := w.Token(f, w.AuthFor("A"))
+			at := to.Str("access_token")
+			if at == "" {
+				res.note("sanity:stateless-mint-failed:" + to.Class())
+				continue
+			}
+			_, claims, err := decodeJWT(at)
+			if err != nil {
+				res.note("sanity:stateless-token-not-a-jwt")
+				continue
+			}
+			o := w.Introspect(at, "", "", w.AuthFor("I"), "")
+			res.Evals++
+			res.Trans++
+			res.distinct("stateless|" + grant + "|" + aud)
+			if act, _ := o.JSON["active"].(bool); !act {
+				res.note("sanity:stateless-genuine-token-inactive")
+				continue
+			}
+			res.note("stateless-payload-checked")
+			var want []string
+			if l, ok := claims["aud"].([]any); ok {
+				for _, x := range l {
+					want = append(want, fmt.Sprint(x))
+				}
+			}
+			var got []string
+			if l, ok := o.JSON["aud"].([]any); ok {
+				for _, x := range l {
+					got = append(got, fmt.Sprint(x))
+				}
+			}
+			sort.Strings(want)
+			sort.Strings(got)
+			if strings.Join(want, " ") != strings.Join(got, " ") {
+				res.violate(Violation{Property: "C09", Fingerprint: "C09/stateless-jwt/audience-not-reported", What: fmt.Sprintf("stateless JWT introspection of an active token reports audience %v, the token carries %v", got, want), Engine: "c09stateless", Case: map[string]string{}, Expected: strings.Join(want, " "), Observed: o.JSON})
+			}
+			if sc := strings.Fields(o.Str("scope")); strings.Join(sc, " ") != "a" {
+				res.violate(Violation{Property: "C09", Fingerprint: "C09/stateless-jwt/scope-wrong", What: fmt.Sprintf("stateless JWT introspection reports scope %v, the token was granted [a]", sc), Engine: "c09stateless", Case: map[string]string{}, Expected: "a", Observed: o.JSON})
+			}
+			if e, ok := o.JSON["exp"].(float64); ok {
+				if ce, _ := claims["exp"].(float64); ce != e {
+					res.violate(Violation{Property: "C09", Fingerprint: "C09/stateless-jwt/exp-wrong", What: fmt.Sprintf("stateless JWT introspection reports exp %v, the token carries %v", e, ce), Engine: "c09stateless", Case: map[string]string{}, Expected: fmt.Sprint(ce), Observed: o.JSON})
+				}
+			}
+		}
+	}
+}
+
+func init() {
+	registerWorker("c09stateless", func(json.RawMessage) (any, error) {
+		res := &WRes{}
+		c09Stateless(res)
+		return res, nil
+	})
+	replayFns["c09stateless"] = func(json.RawMessage) ([]Violation, error) {
+		res := &WRes{}
+		c09Stateless(res)
+		return res.Viol, nil
+	}
 }
